@@ -167,18 +167,13 @@ def run(ctx):
                     else:
                         exp = [sum(ti * row[j] for ti, row in zip(e['thin'], e['c'])) for j in range(len(e['thw']))]
                         got = e['dcost_dthw']
-                    mult = 1
-                    if got is not None and exp and any(exp):
-                        # a module invoked several times under a non-shared spec is counted once per invocation
-                        r = [g / x for g, x in zip(got, exp) if x]
-                        mult = round(r[0]) if r else 1
+                    # a module invoked several times under a non-shared spec is counted once per invocation
+                    mult = sum(1 for (k2, o2, e2) in refs if o2 is o and k2 == kind and e2.get('spec') == e.get('spec') and e2.get('comb', e2.get('layer')) == e.get('comb', e.get('layer')))
                     for g, x in zip(got or [], exp):
                         ctx.corr += 1
                         if not close(g, Fraction(x) * mult, 2.0 ** -18):
-                            mism.append((case, {'what': 'd cost / d theta_i vs branch cost', 'impl_autograd': got, 'branch_costs': exp}))
+                            mism.append((case, {'what': 'd cost / d theta_i vs branch cost', 'impl_autograd': got, 'branch_costs': exp, 'invocations': mult}))
                             break
-                    e['_mult'] = mult
-                    tot[key] += mv * (mult - 1)
             for o in mixes:
                 for which, S in o['specs'].items():
                     key = (id(o), which)
